@@ -40,20 +40,27 @@ import (
 )
 
 // ---------------------------------------------------------------------------
-// fake s3API (only PutObject/GetObject/DeleteObject are reachable: values << chunk size)
+// fake s3API (values above the 5 MiB chunk size go through the multipart calls)
 
 type c31S3 struct {
 	mu      sync.Mutex
 	objects map[string][]byte
+	uploads map[string]map[int32][]byte // upload id -> part number -> data
+	upKeys  map[string]string
+	nextID  int
 }
 
-func c31NewS3() *c31S3 { return &c31S3{objects: map[string][]byte{}} }
-
-var c31ErrUnexpected = errors.New("c31 fake s3: unexpected call")
+func c31NewS3() *c31S3 {
+	f := &c31S3{}
+	f.reset()
+	return f
+}
 
 func (f *c31S3) reset() {
 	f.mu.Lock()
 	f.objects = map[string][]byte{}
+	f.uploads = map[string]map[int32][]byte{}
+	f.upKeys = map[string]string{}
 	f.mu.Unlock()
 }
 func (f *c31S3) get(key string) ([]byte, bool) {
@@ -62,17 +69,71 @@ func (f *c31S3) get(key string) ([]byte, bool) {
 	v, ok := f.objects[key]
 	return v, ok
 }
+func c31ETag(b []byte) string {
+	return fmt.Sprintf("\"%08x-%d\"", crc32.Checksum(b, c31Castagnoli), len(b))
+}
 func (f *c31S3) CreateMultipartUpload(ctx context.Context, p *s3.CreateMultipartUploadInput, o ...func(*s3.Options)) (*s3.CreateMultipartUploadOutput, error) {
-	return nil, c31ErrUnexpected
+	f.mu.Lock()
+	defer f.mu.Unlock()
+	f.nextID++
+	id := fmt.Sprintf("c31-upload-%d", f.nextID)
+	f.uploads[id] = map[int32][]byte{}
+	f.upKeys[id] = *p.Key
+	return &s3.CreateMultipartUploadOutput{UploadId: &id}, nil
 }
 func (f *c31S3) UploadPart(ctx context.Context, p *s3.UploadPartInput, o ...func(*s3.Options)) (*s3.UploadPartOutput, error) {
-	return nil, c31ErrUnexpected
+	data, err := io.ReadAll(p.Body)
+	if err != nil {
+		return nil, err
+	}
+	f.mu.Lock()
+	defer f.mu.Unlock()
+	u, ok := f.uploads[*p.UploadId]
+	if !ok || f.upKeys[*p.UploadId] != *p.Key {
+		return nil, errors.New("NoSuchUpload")
+	}
+	u[*p.PartNumber] = data
+	et := c31ETag(data)
+	return &s3.UploadPartOutput{ETag: &et}, nil
 }
+
+// CompleteMultipartUpload follows S3: ascending part numbers, matching etags, every
+// listed part but the last >= 5 MiB; the object is the concatenation of the listed parts.
 func (f *c31S3) CompleteMultipartUpload(ctx context.Context, p *s3.CompleteMultipartUploadInput, o ...func(*s3.Options)) (*s3.CompleteMultipartUploadOutput, error) {
-	return nil, c31ErrUnexpected
+	f.mu.Lock()
+	defer f.mu.Unlock()
+	u, ok := f.uploads[*p.UploadId]
+	if !ok || f.upKeys[*p.UploadId] != *p.Key {
+		return nil, errors.New("NoSuchUpload")
+	}
+	if p.MultipartUpload == nil || len(p.MultipartUpload.Parts) == 0 {
+		return nil, errors.New("MalformedXML")
+	}
+	var obj []byte
+	prev := int32(0)
+	for i, cp := range p.MultipartUpload.Parts {
+		if cp.PartNumber == nil || cp.ETag == nil || *cp.PartNumber <= prev {
+			return nil, errors.New("InvalidPartOrder")
+		}
+		prev = *cp.PartNumber
+		data, ok := u[*cp.PartNumber]
+		if !ok || c31ETag(data) != *cp.ETag {
+			return nil, errors.New("InvalidPart")
+		}
+		if i < len(p.MultipartUpload.Parts)-1 && len(data) < 5<<20 {
+			return nil, errors.New("EntityTooSmall")
+		}
+		obj = append(obj, data...)
+	}
+	f.objects[*p.Key] = obj
+	delete(f.uploads, *p.UploadId)
+	return &s3.CompleteMultipartUploadOutput{}, nil
 }
 func (f *c31S3) AbortMultipartUpload(ctx context.Context, p *s3.AbortMultipartUploadInput, o ...func(*s3.Options)) (*s3.AbortMultipartUploadOutput, error) {
-	return nil, c31ErrUnexpected
+	f.mu.Lock()
+	defer f.mu.Unlock()
+	delete(f.uploads, *p.UploadId)
+	return &s3.AbortMultipartUploadOutput{}, nil
 }
 func (f *c31S3) PutObject(ctx context.Context, p *s3.PutObjectInput, o ...func(*s3.Options)) (*s3.PutObjectOutput, error) {
 	var data []byte
@@ -209,6 +270,19 @@ func c31Kinds() []c31Kind {
 	}
 }
 
+// c31LargeKinds: flagged values around the 5 MiB chunk size of (*s3Uploader).Upload
+// (PutObject up to the chunk size, multipart above). Only used by layer L4.
+func c31LargeKinds() []c31Kind {
+	mk := func(name string, n int) c31Kind {
+		b := make([]byte, n)
+		for i := range b {
+			b[i] = byte(i*7 + i>>11)
+		}
+		return c31Kind{Name: name, Class: "FL" + name[2:], Key: c31S("k"), Val: c31S(string(b)), Hdrs: []c31Hdr{{"LFS_BLOB", c31S("$SHA256")}, {"h", c31S("1")}}}
+	}
+	return []c31Kind{mk("f-5MiB", 5<<20), mk("f-5MiB+1", 5<<20+1), mk("f-10MiB", 10<<20), mk("f-10MiB+1", 10<<20+1)}
+}
+
 // ---------------------------------------------------------------------------
 // case description (JSON-serialisable; this is also the replay format)
 
@@ -274,6 +348,9 @@ func c31NewEnv(kinds []c31Kind) *c31Env {
 	}
 	e := &c31Env{m: m, s3: fs, kinds: map[string]c31Kind{}, comp: map[string]kgo.Compressor{}, dec: kgo.DefaultDecompressor(), seen: map[string]struct{}{}}
 	for _, k := range kinds {
+		e.kinds[k.Name] = k
+	}
+	for _, k := range c31LargeKinds() {
 		e.kinds[k.Name] = k
 	}
 	mk := func(name string, c kgo.CompressionCodec) {
@@ -793,25 +870,28 @@ func c31Layers(kinds []c31Kind, thorough bool) []c31Layer {
 	// L1 records: 1 topic x 1 partition x 1 batch; every record sequence over the full alphabet.
 	// gzip and zstd are enumerated one record shorter: the proxy builds a fresh encoder
 	// (megabytes of state) for every batch it recompresses, which dominates the run time.
-	l1 := func(name string, maxLen int, codecs []string) {
+	l1 := func(name string, maxLen int, codecs []string, nvar int) {
 		nseq := c31SeqCount(len(names), maxLen)
-		ncv := int64(len(codecs) * 2)
+		ncv := int64(len(codecs) * nvar)
 		layers = append(layers, c31Layer{
 			Name: name, N: nseq * ncv,
-			Desc: fmt.Sprintf("1 topic x 1 partition x 1 batch; all record sequences of length 1..%d over %d record kinds x codec framings %v x 2 batch-header variants", maxLen, len(names), codecs),
+			Desc: fmt.Sprintf("1 topic x 1 partition x 1 batch; all record sequences of length 1..%d over %d record kinds x codec framings %v x %d batch-header variant(s)", maxLen, len(names), codecs, nvar),
 			Gen: func(i int64) c31Case {
 				seq := c31SeqAt(i/ncv, len(names), maxLen)
 				cv := int(i % ncv)
 				return c31Case{Layer: name, Topics: []c31TopicSpec{{Topic: "ta", Partitions: []c31PartSpec{{Partition: 0,
-					Batches: []c31BatchSpec{{Codec: codecs[cv/2], Variant: cv % 2, Records: pick(seq, names)}}}}}}}
+					Batches: []c31BatchSpec{{Codec: codecs[cv/nvar], Variant: cv % nvar, Records: pick(seq, names)}}}}}}}
 			}})
 	}
 	l1Len := 3
 	if thorough {
 		l1Len = 4
 	}
-	l1("L1-records-light", l1Len, []string{"none", "snappy", "lz4", "snappy-xerial"})
-	l1("L1-records-heavy", l1Len-1, []string{"gzip", "zstd"})
+	l1("L1-records-light", l1Len, []string{"none", "snappy", "lz4", "snappy-xerial"}, 2)
+	l1("L1-records-heavy", 2, []string{"gzip", "zstd"}, 2)
+	if thorough {
+		l1("L1-records-heavy-3", 3, []string{"gzip", "zstd"}, 1)
+	}
 
 	// L2 batches: 1 topic x 1 partition x 1..2 batches.
 	l2 := func(name string, contents [][]string, codecs []string) {
@@ -857,8 +937,11 @@ func c31Layers(kinds []c31Kind, thorough bool) []c31Layer {
 	}
 	l3Codecs := []string{"none", "snappy"}
 	var b3 []c31BatchSpec
-	for _, ct := range l3Contents {
+	for ci, ct := range l3Contents {
 		for _, cd := range l3Codecs {
+			if ci >= 2 && cd != "none" {
+				continue // the thorough-only mixed batch is enumerated uncompressed only
+			}
 			b3 = append(b3, c31BatchSpec{Codec: cd, Records: ct})
 		}
 	}
@@ -884,7 +967,7 @@ func c31Layers(kinds []c31Kind, thorough bool) []c31Layer {
 	}
 	layers = append(layers, c31Layer{
 		Name: "L3-topology", N: nt + nt*nt,
-		Desc: fmt.Sprintf("1..2 topics x 1..2 partitions; each partition any of %d = {no records} + 1..2 batches over (%v x %v)", np, l3Contents, l3Codecs),
+		Desc: fmt.Sprintf("1..2 topics x 1..2 partitions; each partition any of %d = {no records} + 1..2 batches over %d batch variants (%v x %v)", np, len(b3), l3Contents, l3Codecs),
 		Gen: func(i int64) c31Case {
 			if i < nt {
 				return c31Case{Layer: "L3-topology", Topics: []c31TopicSpec{topicAt("ta", i)}}
@@ -892,6 +975,20 @@ func c31Layers(kinds []c31Kind, thorough bool) []c31Layer {
 			i -= nt
 			return c31Case{Layer: "L3-topology", Topics: []c31TopicSpec{topicAt("ta", i/nt), topicAt("tb", i%nt)}}
 		}})
+
+	// L4 large values: one flagged value at/above the 5 MiB chunk size (multipart upload inside Upload).
+	var l4 []c31Case
+	for _, k := range c31LargeKinds() {
+		for _, cd := range []string{"none", "snappy"} {
+			for _, recs := range [][]string{{k.Name}, {"u-null", k.Name, "u-plain"}} {
+				l4 = append(l4, c31Case{Layer: "L4-large-values", Topics: []c31TopicSpec{{Topic: "ta", Partitions: []c31PartSpec{{Partition: 0,
+					Batches: []c31BatchSpec{{Codec: cd, Records: recs}}}}}}})
+			}
+		}
+	}
+	layers = append(layers, c31Layer{Name: "L4-large-values", N: int64(len(l4)),
+		Desc: "1 batch holding a flagged value of 5 MiB, 5 MiB+1, 10 MiB or 10 MiB+1 bytes (alone, or between two unflagged records) x {none, snappy}",
+		Gen:  func(i int64) c31Case { return l4[i] }})
 	return layers
 }
 
@@ -907,9 +1004,9 @@ type c31Found struct {
 func TestVerifC31(t *testing.T) {
 	rep := vh.New(t, "C31")
 	defer rep.Finish()
-	rep.Rule = "cases = produce requests generated from three nested bounded products (L1 record sequences, L2 batch pairs, L3 topic/partition topologies) over a fixed record-kind alphabet; each is rewritten by the real rewriteProduceRecords and decoded independently. Outcome signature = {rewritten|untouched|rejected} + topology shape + set of (codec, header variant, record classes) of its batches. Non-trivial = the request holds >=1 flagged record and was rewritten (so envelope, object, header and re-framing checks all ran)."
+	rep.Rule = "cases = produce requests generated from four bounded products (L1 record sequences in one batch, L2 batch pairs, L3 topic/partition topologies, L4 values around the 5 MiB upload chunk size) over a fixed record-kind alphabet; each is rewritten by the real rewriteProduceRecords and decoded independently. Outcome signature = {rewritten|untouched|rejected} + topology shape + set of (codec, header variant, record classes) of its batches. Non-trivial = the request holds >=1 flagged record and was rewritten (so envelope, object, header and re-framing checks all ran)."
 	rep.Assumptions = []string{
-		"fake s3API: PutObject stores the body atomically under the key (multipart is unreachable: values are far below the chunk size)",
+		"fake s3API: PutObject stores the body atomically; multipart completion follows the S3 rules and assembles exactly the listed parts",
 		"franz-go kgo compressor/decompressor are trusted for producing compressed inputs and for decompressing the rewritten record areas; batch framing, CRC and records are decoded by the independent enum codec",
 		"a request holding a record with a wrong checksum / unknown algorithm / checksum with algorithm none may be refused as a whole; every other request must be rewritten",
 		"duplicate LFS_BLOB headers: removing all of them or only the first are both accepted as 'loses only its flag header'",
